@@ -14,10 +14,20 @@ import NdnGen.C15
     `ON DELETE CASCADE` clauses do nothing and cascades are whatever the Python code does by hand;
   * python's sqlite3 implicit transactions: `cur` is what the connection sees, `com` what is
     committed; closing without commit rolls back (`reopen`);
-  * the TPM is the set of key names that have a private-key file;
+  * the TPM (`TpmFile`) is the private-key directory: a map file name -> private key, the file name of a key
+    being `Cfg.fn key_name` (= hex(sha256(encoded key name)) + '.privkey'; the function is a parameter of the
+    model, the driver instantiates it with SHA-256 over the real encoded names); a key pair is a number
+    (the n-th pair generated), its public key bits are identified with that number (`Row.data` of a key row =
+    the `key_bits` column), a signer remembers the private key it loaded (`Signer.priv`);
+  * key names carry their key id as the code builds it (`Tpm.construct_key_name`): an explicit `key_id`, 8 random
+    bytes (fresh by construction: the code draws until the name has no file; collisions of a fresh random
+    id with a stored ROW are not modelled), or the SHA-256 of the new public key; another `key_id_type` is refused;
+  * `Cfg.guard` = `TpmFile.generate_key` as repaired in /repo (refuses - ValueError, before anything is written -
+    a key name whose private key is already stored); `guard = false` is the code before the repair
+    (`save_key` overwrites), kept for the counterexample `Ndn.C15.unchanged_new_key_overwrites_live_key`;
   * every database write, `commit` and TPM call is a *fault point* (`tick`): with `fault = some k` the
     k-th one of the operation raises before doing anything.
-  Names: identity = Nat, key = (identity, fresh key id), certificate = (key, issuer id); the harness maps
+  Names: identity = Nat, key = (identity, key id), certificate = (key, issuer id); the harness maps
   them to NDN names.  `Tab.lost` is a ghost (never read by the operations): the scopes whose default row
   was deleted and that have had no default since.
 -/
@@ -32,10 +42,25 @@ def KErr.name : KErr → String
   | .keyError => "KeyError" | .integrityError => "IntegrityError" | .attributeError => "AttributeError"
   | .valueError => "ValueError" | .injected => "InjectedFault"
 
+/-- the key id component of a key name (`Tpm.construct_key_name`) -/
+inductive KeyId where
+  /-- `key_id_type='random'` (the default): 8 random bytes drawn while key pair `p` was generated -/
+  | rnd (p : Nat)
+  /-- the caller's explicit `key_id=` (label `x`) -/
+  | lit (x : Nat)
+  /-- `key_id_type='sha256'`: the SHA-256 of the public key of key pair `p` -/
+  | hash (p : Nat)
+  deriving DecidableEq, Repr
+
+instance (n : Nat) : OfNat KeyId n := ⟨.rnd n⟩
+
 structure KeyName where
   idn : Nat
-  kid : Nat
+  kid : KeyId
   deriving DecidableEq, Repr
+
+/-- name of a private-key file (the SHA-256 of the encoded key name, as a number) -/
+abbrev FileName := Nat
 
 structure CertName where
   key : KeyName
@@ -43,12 +68,14 @@ structure CertName where
   deriving DecidableEq, Repr
 
 /-- a table row: sqlite rowid, parent rowid (`identity_id` / `key_id`; 0 for identities), the name column,
-    `is_default` -/
+    `is_default`, and the payload column that matters here: `key_bits` of a key row (the public key, identified
+    with the number of its key pair; 0 in the other tables) -/
 structure Row (ν : Type) where
   rid : Nat
   owner : Nat
   name : ν
   dflt : Bool
+  data : Nat := 0
   deriving Repr
 
 abbrev Table (ν : Type) := List (Row ν)
@@ -67,6 +94,10 @@ def hasDefault (sc : Bool) (o : Nat) (t : Table ν) : Bool :=
 
 def populated (sc : Bool) (o : Nat) (t : Table ν) : Bool :=
   t.any fun r => sameScope sc o r.owner
+
+/-- the payload column of the row named `n` (part of the INSERT statement that creates the row) -/
+def setData (n : ν) (b : Nat) (t : Table ν) : Table ν :=
+  t.map fun r => if r.name = n then { r with data := b } else r
 
 def maxRid : Table ν → Nat
   | [] => 0
@@ -180,22 +211,52 @@ inductive Loc where
   | lit (n : Nat)
   deriving DecidableEq, Repr
 
-/-- what `Tpm.get_signer(key_name, key_locator)` returns: signs with the private key stored under `key` -/
+/-- what `Tpm.get_signer(key_name, key_locator)` returns: it was asked for `key` and signs with the private
+    key `priv` it read from that key's file when it was made -/
 structure Signer where
   key : KeyName
   loc : Loc
+  priv : Nat
   deriving DecidableEq, Repr
 
+/-! ### the private-key directory -/
+
+/-- content of file `f` -/
+def fileGet (t : List (FileName × Nat)) (f : FileName) : Option Nat :=
+  (t.find? fun e => e.1 = f).map (·.2)
+
+/-- `os.path.exists` -/
+def fileHas (t : List (FileName × Nat)) (f : FileName) : Bool := (fileGet t f).isSome
+
+/-- `os.remove(f)` (a missing file is ignored) -/
+def removeFile (t : List (FileName × Nat)) (f : FileName) : List (FileName × Nat) :=
+  t.filter fun e => e.1 ≠ f
+
+/-- `open(f, 'wb').write(p)`: creates or overwrites -/
+def writeFile (t : List (FileName × Nat)) (f : FileName) (p : Nat) : List (FileName × Nat) :=
+  removeFile t f ++ [(f, p)]
+
+/-- what does not change while the store is used: the file-name function of `TpmFile`, and which
+    `generate_key` is modelled (`guard = true`: as repaired, `false`: the code before the repair) -/
+structure Cfg where
+  fn : KeyName → FileName
+  guard : Bool
+
 structure Sys where
+  cfg : Cfg
   cur : Db
   com : Db
-  tpm : List KeyName
+  /-- the private-key directory: file name -> private key (number of the key pair) -/
+  tpm : List (FileName × Nat)
   cache : List ((KeyName × Loc) × Signer)
+  /-- number of key pairs generated so far -/
   nextKid : Nat
   fault : Option Nat
-  deriving Repr
 
-def Sys.init : Sys := ⟨Db.empty, Db.empty, [], [], 0, none⟩
+def Sys.init (fn : KeyName → FileName) : Sys := ⟨⟨fn, true⟩, Db.empty, Db.empty, [], [], 0, none⟩
+
+/-- the code before the repair of `TpmFile.generate_key` -/
+def Sys.initUnchanged (fn : KeyName → FileName) : Sys := { Sys.init fn with cfg := ⟨fn, false⟩ }
 
 /-! ### the operation monad: state survives an exception -/
 
@@ -296,12 +357,13 @@ def execInsertId (n : Nat) : M Unit := do
   | none => raise .integrityError
   | some t => modCur fun d => { d with ids := d.ids.apply false fun _ => t }
 
-def execInsertKey (idRid : Nat) (k : KeyName) : M Unit := do
+/-- `INSERT INTO keys (identity_id, key_name, key_bits) VALUES (?, ?, ?)` -/
+def execInsertKey (idRid : Nat) (k : KeyName) (bits : Nat) : M Unit := do
   tick
   let s ← getS
   match insertRow (trs .keys) idRid k s.cur.keys.rows with
   | none => raise .integrityError
-  | some t => modCur fun d => { d with keys := d.keys.apply true fun _ => t }
+  | some t => modCur fun d => { d with keys := d.keys.apply true fun _ => setData k bits t }
 
 /-- `INSERT INTO certificates (key_id, …) VALUES ((SELECT id FROM keys WHERE key_name=?), ?, ?)`:
     no such key → NULL → NOT NULL constraint → IntegrityError -/
@@ -331,18 +393,42 @@ def newIdentity (n : Nat) : M Unit := do
   let _ ← lookupId n
   pure ()
 
-/-- `new_key` -/
-def newKey (n : Nat) (bad : Bool) : M Unit := do
+/-- the `key_id` / `key_id_type` keyword arguments of `new_key` -/
+inductive KeyIdSpec where
+  /-- no `key_id`, `key_id_type='random'` (the default) -/
+  | random
+  /-- no `key_id`, `key_id_type='sha256'` -/
+  | sha256
+  /-- no `key_id`, any other `key_id_type` -/
+  | badType
+  /-- `key_id=<x>` (then `key_id_type` is not looked at) -/
+  | explicit (x : Nat)
+  deriving DecidableEq, Repr
+
+/-- `Tpm.construct_key_name`: the key id of key pair `p`; `none` = ValueError (unsupported `key_id_type`) -/
+def mkKid (p : Nat) : KeyIdSpec → Option KeyId
+  | .random => some (.rnd p)
+  | .sha256 => some (.hash p)
+  | .badType => none
+  | .explicit x => some (.lit x)
+
+/-- `new_key` (`bad`: an unsupported `key_type`) -/
+def newKey (n : Nat) (bad : Bool) (spec : KeyIdSpec) : M Unit := do
   let i ← lookupId n
   tick                                                   -- tpm.generate_key
   raiseIf bad .valueError
   let s ← getS
-  let k : KeyName := ⟨n, s.nextKid⟩
-  modS fun s => { s with nextKid := s.nextKid + 1, tpm := s.tpm ++ [k] }
+  let p := s.nextKid                                     -- the key pair that has just been generated
+  let kid ← ofOpt .valueError (mkKid p spec)             -- construct_key_name
+  let k : KeyName := ⟨n, kid⟩
+  let f := s.cfg.fn k
+  -- (repaired) a key name whose private key is already stored is refused before anything is written
+  raiseIf (s.cfg.guard && fileHas s.tpm f) .valueError
+  modS fun s => { s with nextKid := p + 1, tpm := writeFile s.tpm f p }     -- save_key
   tick                                                   -- tpm.get_signer(key_name)
   let s ← getS
-  raiseIf (decide (k ∉ s.tpm)) .keyError
-  execInsertKey i.rid k
+  raiseIf (!fileHas s.tpm f) .keyError
+  execInsertKey i.rid k p
   execInsertCert k ⟨k, 0⟩
   commit
   let s ← getS
@@ -354,7 +440,7 @@ def newKey (n : Nat) (bad : Bool) : M Unit := do
 /-- `touch_identity` -/
 def touchIdentity (n : Nat) : M Unit := do
   let s ← getS
-  whenM (idRow? s.cur n).isNone (do execInsertId n; commit; newKey n false)
+  whenM (idRow? s.cur n).isNone (do execInsertId n; commit; newKey n false .random)
   let s ← getS
   whenM (defaultId? s.cur).isNone (setDefaultIdentity n)
   let _ ← lookupId n
@@ -395,7 +481,7 @@ def delKey (k : KeyName) : M Unit := do
   modCur fun d => { d with keys := d.keys.delete true fun r => r.name = k }
   commit
   tick                                                   -- tpm.delete_key
-  modS fun s => { s with tpm := s.tpm.filter fun x => x ≠ k }
+  modS fun s => { s with tpm := removeFile s.tpm (s.cfg.fn k) }
   clearCache
 
 def delKeys : List KeyName → M Unit
@@ -462,11 +548,12 @@ def getSigner (sel : Sel) (loc : Option Nat) : M Signer := do
   | some sg => pure sg
   | none => do
     tick                                                 -- tpm.get_signer(key_name, key_locator)
-    if k ∈ s.tpm then do
-      let sg : Signer := ⟨k, l⟩
+    match fileGet s.tpm (s.cfg.fn k) with
+    | some p => do
+      let sg : Signer := ⟨k, l, p⟩
       modS fun s => { s with cache := s.cache ++ [((k, l), sg)] }
       pure sg
-    else raise .keyError
+    | none => raise .keyError
 
 /-- `shutdown()` + a new `KeychainSqlite3` on the same files: uncommitted work is rolled back -/
 def reopen : M Unit := modS fun s => { s with cur := s.com, cache := [] }
@@ -476,7 +563,7 @@ def reopen : M Unit := modS fun s => { s with cur := s.com, cache := [] }
 inductive Op where
   | newIdentity (n : Nat)
   | touchIdentity (n : Nat)
-  | newKey (n : Nat) (bad : Bool)
+  | newKey (n : Nat) (bad : Bool) (spec : KeyIdSpec)
   | importCert (k : KeyName) (c : CertName)
   | setDefaultIdentity (n : Nat)
   | setDefaultKey (via : Nat) (k : KeyName)
@@ -492,7 +579,7 @@ inductive Op where
 def Op.prog : Op → M (Option Signer)
   | .newIdentity n => do Keychain.newIdentity n; pure none
   | .touchIdentity n => do Keychain.touchIdentity n; pure none
-  | .newKey n b => do Keychain.newKey n b; pure none
+  | .newKey n b sp => do Keychain.newKey n b sp; pure none
   | .importCert k c => do Keychain.importCert k c; pure none
   | .setDefaultIdentity n => do Keychain.setDefaultIdentity n; pure none
   | .setDefaultKey v k => do Keychain.setDefaultKey v k; pure none
